@@ -364,17 +364,17 @@ def gen_inflight(rng):
     ops.append("H,I")
     j = rng.randrange(k)
     pl.evolve()
-    released_j = False
+    released_pending = set()       # sessions of the ticked bucket (all have an unanswered Interim) released since
     fmask = rng.choice([0, 0, 0, 1 << j])
     ops.append("T,%d,%d,%s" % (sess[j][1], fmask, snap_tok(pl.snapshot())))
     for _ in range(rng.choice([1, 1, 2, 3])):
         x = rng.randrange(k)
         r = rng.random()
-        if x == j and released_j and 0.55 <= r < 0.9:
+        if x in released_pending and 0.55 <= r < 0.9:
             # the model keeps ONE detached object per session: after the release of the session whose Interim is
             # unanswered it is not announced again before the response is delivered
             r = 0.95
-        if fmask and r >= 0.55:
+        if fmask and r >= 0.55 and sess[x][1] == sess[j][1]:
             # a FAILED late response checkpoints the cached entry as it is then; the model wrote that checkpoint at send
             # time, so the entry must not be re-announced (interface renumbered) in between
             r = 0.95
@@ -386,7 +386,8 @@ def gen_inflight(rng):
                 pl.evolve()
                 sn = snap_tok(pl.snapshot())
             ops.append("X,%d,%s" % (x, sn))
-            released_j = released_j or x == j
+            if sess[x][1] == sess[j][1]:
+                released_pending.add(x)
         elif r < 0.75:
             ops.append("A,%d,%d,%d" % (x, ifx[x], rng.choice(IFX)))
         elif r < 0.9:
